@@ -97,8 +97,15 @@ def check_filter(prog: Program, res: Result) -> None:
         # the re-binding happens before the connection loop
         loops = [n for n in walk_function(fi.node) if isinstance(n, ast.For) and "sorted_edge_inds" in norm(n.iter)]
         for g in group:
-            rb = [s_ for s_ in walk_function(fi.node) if isinstance(s_, ast.Assign) and norm(s_.targets[0]) == g and isinstance(s_.value, ast.Subscript)
-                  and _mask_of(fi.node, s_.value.slice) is c]
+            rb = []
+            for s_ in walk_function(fi.node):
+                if not isinstance(s_, ast.Assign) or len(s_.targets) != 1:
+                    continue
+                t_, v_ = s_.targets[0], s_.value
+                # g = g[mask]   or one component of   (g, h, ...) = (g[mask], h[mask], ...)
+                pairs_ = list(zip(t_.elts, v_.elts)) if isinstance(t_, (ast.Tuple, ast.List)) and isinstance(v_, (ast.Tuple, ast.List)) and len(t_.elts) == len(v_.elts) else [(t_, v_)]
+                if any(norm(tt_) == g and isinstance(vv_, ast.Subscript) and _mask_of(fi.node, vv_.slice) is c for tt_, vv_ in pairs_):
+                    rb.append(s_)
             ok = bool(rb) and all(not astq.enclosing_loops(s_) for s_ in rb) and (not loops or all(s_.lineno < loops[0].lineno for s_ in rb))
             res.ob(R, ok, fi.qualname, f"{g} re-bound to its filtered version before the edge loop",
                    f"`{g}` is not replaced by its filtered version before connections are built", fi.where)
@@ -153,8 +160,19 @@ def check_minpeaks(prog: Program, res: Result) -> None:
     fi = prog.func(f"{PG}:assign_connections_to_instances")
     res.touch(fi)
     R = "C08-minpeaks"
+    # the threshold the filter compares with: the parameter itself, or a local computed from it (every binding mentions it)
+    def _threshold_names():
+        out = {"min_instance_peaks"}
+        for st_ in walk_function(fi.node):
+            if isinstance(st_, ast.Assign) and len(st_.targets) == 1 and isinstance(st_.targets[0], ast.Name) and st_.targets[0].id != "min_instance_peaks":
+                nm_ = st_.targets[0].id
+                binds_ = [b_ for b_ in astq.assignments_to(fi.node, nm_)]
+                if binds_ and all(isinstance(b_, ast.Assign) and "min_instance_peaks" in astq.names_in(b_.value) for b_ in binds_):
+                    out.add(nm_)
+        return out
+    thr_names = _threshold_names()
     comps = [n for n in walk_function(fi.node) if isinstance(n, ast.DictComp) and n.generators and n.generators[0].ifs
-             and "min_instance_peaks" in norm(n.generators[0].ifs[0])]
+             and astq.names_in(n.generators[0].ifs[0]) & thr_names]
     res.ob(R, len(comps) == 1, fi.qualname, "one min_instance_peaks filter", f"{len(comps)} filters on min_instance_peaks", fi.where)
     table = None
     for c in comps:
@@ -165,8 +183,10 @@ def check_minpeaks(prog: Program, res: Result) -> None:
         tg = [norm(e) for e in g.target.elts] if isinstance(g.target, ast.Tuple) and len(g.target.elts) == 2 else [None, None]
         # count[instance] >= minimum, count being the number of table entries per instance id
         counter = cond.left.value.id if isinstance(cond, ast.Compare) and isinstance(cond.left, ast.Subscript) and isinstance(cond.left.value, ast.Name) else None
-        ok = isinstance(cond, ast.Compare) and len(cond.ops) == 1 and isinstance(cond.ops[0], (ast.GtE,)) and norm(cond.comparators[0]) == "min_instance_peaks" \
+        ok = isinstance(cond, ast.Compare) and len(cond.ops) == 1 and isinstance(cond.ops[0], (ast.GtE,)) and norm(cond.comparators[0]) in thr_names \
             and counter is not None and norm(cond.left.slice) == tg[1]
+        if ok:
+            thr = norm(cond.comparators[0])
         res.ob(R, ok, fi.qualname, f"keeps instances with count >= minimum: {short(cond, 60)}",
                f"the filter `{short(cond, 60)}` does not keep exactly the instances with at least min_instance_peaks peaks", f"{fi.module.relpath}:{c.lineno}")
         res.ob(R, table is not None and norm(c.key) == tg[0] and norm(c.value) == tg[1],
@@ -196,12 +216,30 @@ def check_minpeaks(prog: Program, res: Result) -> None:
     res.ob(R, bool(rets) and table is not None and all(r.value is not None and (norm(r.value) == table or r.value in comps) for r in rets), fi.qualname,
            "returns the assignment table", "does not return the assignment table", fi.where)
     # the threshold is the caller's COUNT unless it is a float fraction (decided by type, not by value: the count 1 is valid)
-    re_defs = [st for st in walk_function(fi.node) if isinstance(st, ast.Assign) and norm(st.targets[0]) == "min_instance_peaks"]
+    def _float_arm(st_):
+        """'float' / 'other' when st_ sits in the arm of an `isinstance(min_instance_peaks, float)` test (or its negation) that is taken for floats / for the rest"""
+        for g in [a for a in ancestors(st_) if isinstance(a, ast.If)]:
+            t_, neg_ = g.test, False
+            if isinstance(t_, ast.UnaryOp) and isinstance(t_.op, ast.Not):
+                t_, neg_ = t_.operand, True
+            if isinstance(t_, ast.Call) and norm(t_.func) == "isinstance" and len(t_.args) == 2 and norm(t_.args[0]) == "min_instance_peaks" \
+                    and norm(t_.args[1]) in ("float", "(float,)", "(float, np.floating)", "(float, np.float32, np.float64)"):
+                in_body = st_ in list(ast.walk(ast.Module(body=g.body, type_ignores=[])))
+                in_else = st_ in list(ast.walk(ast.Module(body=g.orelse, type_ignores=[])))
+                if in_body or in_else:
+                    return "float" if in_body != neg_ else "other"
+        return None
+
+    thr = locals().get("thr", "min_instance_peaks")
+    re_defs = [st for st in walk_function(fi.node) if isinstance(st, ast.Assign) and norm(st.targets[0]) == thr]
     for st in re_defs:
         guards = [a for a in ancestors(st) if isinstance(a, ast.If)]
-        typed = any(isinstance(g.test, ast.Call) and norm(g.test.func) == "isinstance" and len(g.test.args) == 2 and norm(g.test.args[0]) == "min_instance_peaks"
-                    and norm(g.test.args[1]) in ("float", "(float,)", "(float, np.floating)", "(float, np.float32, np.float64)") and st in list(ast.walk(ast.Module(body=g.body, type_ignores=[])))
-                    for g in guards)
+        if thr != "min_instance_peaks" and norm(st.value) == "min_instance_peaks":
+            # the local threshold takes the caller's count as it is - on the arm for non-floats
+            res.ob(R, _float_arm(st) == "other", fi.qualname, "an integer count is used as given",
+                   f"`{short(st, 60)}` takes min_instance_peaks unscaled although it may be a float fraction here", f"{fi.module.relpath}:{st.lineno}")
+            continue
+        typed = _float_arm(st) == "float"
         res.ob(R, typed, fi.qualname, "threshold rescaled to a fraction of the nodes only for float arguments",
                f"`{short(st, 60)}` re-interprets min_instance_peaks under `{short(guards[0].test, 50) if guards else 'no guard'}`: an integer COUNT (e.g. 1) is turned into a "
                "fraction of the node count, so instances with enough peaks are dropped", f"{fi.module.relpath}:{st.lineno}")
